@@ -53,8 +53,8 @@ ASSUMPTIONS = [
     "the expected file after an edit is the original file with the one byte at sh_offset + k changed",
 ]
 
-CPU_CAP_SMALL = 0.5     # seconds of process CPU time for one parse/build of a file < 100 kB
-CPU_CAP_BIG = 4.0
+CPU_CAP_SMALL = 0.25    # seconds of process CPU time for one parse/build of a file < 100 kB
+CPU_CAP_BIG = 2.0
 MEM_CAP = 3 << 30       # address-space cap of a worker while deviated files are handled
 
 EHDR_FIELDS = elfcorpus.EHDR_FIELDS
@@ -241,7 +241,7 @@ def check_identity(ent):
         want = data[sh["offset"]:sh["offset"] + sh["size"]]
         if sec[3] != want:
             how = "longer" if len(sec[3]) > len(want) else ("shorter" if len(sec[3]) < len(want) else "differs")
-            vs.append(violation("identity:section-content-%s:%s:%s" % (how, sht_name(sh["type"]), cls),
+            vs.append(violation("identity:section-content-%s:%s" % (how, sht_name(sh["type"])),
                                 "%s: section %d (%s %r) is %#x bytes in the file (sh_size) but the parsed section's "
                                 "content is %#x bytes: %r..." % (ent["name"], i, sht_name(sh["type"]), sec[1], len(want),
                                                                 len(sec[3]), sec[3][len(want) - 4:len(want) + 16]), case))
@@ -297,7 +297,7 @@ def check_edit(ent, i, pos, xor, path, orig_view=None):
         return [], "same-as-first"
     nb = bytes([old[k] ^ xor])
     new = old[:k] + nb + old[k + 1:]
-    sig_tail = "%s:%s:%s:%s" % (path, stype, pos, cls)
+    sig_tail = "%s:%s:%s" % (path, stype, pos)
     cap = cap_for(data)
     if path == "virt":
         if not isinstance(s, ProgBits) or not sh.addr:
@@ -387,7 +387,7 @@ def check_deviation(ent, label, fcls, off, sz, delta):
     dev = lay.write(data, off, sz, val + delta)
     case = {"k": "deviation", "file": ent["name"], "sha256": ent["sha256"], "label": label, "fcls": fcls,
             "off": off, "sz": sz, "delta": delta}
-    dsig = "%s:%s:%s" % (fcls, "+1" if delta > 0 else "-1", cls)
+    dsig = "%s:%s" % (fcls, "+1" if delta > 0 else "-1")
     what0 = "%s with %s %#x -> %#x" % (ent["name"], label, val, (val + delta) % (1 << (8 * sz)))
 
     guarded = lambda f: _guarded(f, cap)
